@@ -40,7 +40,7 @@ ALGS = {
 }
 CLASSREFS = ["urn:oasis:names:tc:SAML:2.0:ac:classes:InternetProtocolPassword", "urn:oasis:names:tc:SAML:2.0:ac:classes:PasswordProtectedTransport",
              "urn:oasis:names:tc:SAML:2.0:ac:classes:unspecified", "https://refeds.org/profile/mfa"]
-IDENT_CLASSES = ["plain", "xml-special", "lookalike-markup", "multibyte", "padded", "long", "many-values", "mixed", "repeated-values", "typed-lookalikes"]
+IDENT_CLASSES = ["plain", "xml-special", "lookalike-markup", "multibyte", "padded", "long", "many-values", "mixed", "repeated-values", "typed-lookalikes", "scale"]
 
 
 def identity_for(cls, rng):
@@ -66,6 +66,12 @@ def identity_for(cls, rng):
         w = gen.word(rng, 3, 6)
         return {"eduPersonAffiliation": ["member", "staff", "member"], "eduPersonEntitlement": ["urn:x:a", "urn:x:a", "urn:x:a", "urn:x:b"],
                 "givenName": [w], "displayName": [w], "sn": [w, w]}
+    if cls == "scale":
+        # every attribute of the map at once, one of them with very many values, one very long value
+        ident = {n: ["%s-%s" % (n, gen.word(rng, 2, 6))] for n in names}
+        ident["eduPersonEntitlement"] = ["urn:x:%04d:%s" % (i, gen.word(rng, 2, 6)) for i in range(1500)]
+        ident["displayName"] = [gen.word(rng, 150000, 200000)]
+        return ident
     if cls == "typed-lookalikes":
         # text that looks like another type or like nothing: carried as the text it is
         return {"uid": ["0"], "givenName": ["true", "false", "None", "null"], "sn": ["1.0", "1e3", "-0", "007"], "mail": ["2024-01-01T00:00:00Z"],
